@@ -34,6 +34,7 @@ def run(ctx):
     for site in ("facebook", "twitter", "instagram", "telegram"):
         site_languages(ctx, "R2", site, spec[site])
     tries(ctx, "R3")
+    predicate_table(ctx, "R5")
     ctx.rule("R4", "shared parsing helper: safe_urlsplit prepends a scheme exactly when PROTOCOL_RE does not match the string (every scheme-less spelling gets its host); SPECIAL_HOSTS_RE is confined to localhost / IP literals")
     from .common_url import rule_safe_urlsplit, rule_special_hosts
     rule_safe_urlsplit(ctx, "R4")
@@ -125,10 +126,87 @@ def attribute_dependence(ctx, rule):
         seqs[fname] = seq
         first = seq[0] if seq else None
         ctx.ob(rule, "%s/homepage-test-first" % fname, first is not None and first[0] == "is_homepage(parsed)" and first[1] == "return False",
-               "%s does not start by answering False for a homepage: a bare shortener domain would be flagged" % fname, mod.site(fn), witness="http://bit.ly/")
+               "%s does not start by answering False for a homepage: a bare shortener domain would be flagged" % fname, mod.site(fn), witness="http://bit.ly/", cells=_cells_for(ctx))
     ctx.ob(rule, "shortener-predicates-same-decision-sequence", seqs["is_shortened_url"] == seqs["should_resolve"],
            "is_shortened_url and should_resolve drifted apart: %s vs %s (every url flagged by the former must be flagged by the latter)" % (seqs["is_shortened_url"], seqs["should_resolve"]),
-           repo.mod("should_resolve").site(repo.mod("should_resolve").func("should_resolve").node))
+           repo.mod("should_resolve").site(repo.mod("should_resolve").func("should_resolve").node), cells=_cells_for(ctx))
+
+
+# ----------------------------------------------------------------------
+def _shortener_cells(repo, thorough=False):
+    """the three trie predicates, interpreted with their module-level tries built by the module's own
+    top-level statements: [(description, behaves as documented?)]"""
+    from . import tables as TB
+    out = []
+
+    def probe(modname, fname, url, want):
+        got = TB.call(repo, modname, fname, url)
+        out.append(("%s(%r) -> %r" % (fname, url, got), bool(got) is want and not isinstance(got, str)))
+
+    short = list(repo.const(repo.mod("is_shortened_url"), "SHORTENER_DOMAINS"))
+    more = list(repo.const(repo.mod("should_resolve"), "SHOULD_RESOLVE_DOMAINS"))
+    yt = list(repo.const(repo.mod("youtube"), "YOUTUBE_DOMAINS"))
+    step = 23 if thorough else 131
+    known = set(short) | set(more)
+
+    def under_known(h, pool):
+        return any(h == d or h.endswith("." + d) for d in pool)
+    for d in sorted(set(short[::step] + short[-1:] + short[:1])):
+        for fname, modname in (("is_shortened_url", "is_shortened_url"), ("should_resolve", "should_resolve")):
+            probe(modname, fname, "http://%s/" % d, False)
+            probe(modname, fname, "http://%s" % d, False)
+            probe(modname, fname, "https://%s/AbC12" % d, True)
+            probe(modname, fname, "%s/AbC12" % d, True)
+            probe(modname, fname, "HTTP://%s/AbC12" % d.upper(), True)
+            probe(modname, fname, "http://sub.%s/AbC12?x=1#f" % d, True)
+            if not under_known("x" + d, known) and not ("x" + d).startswith("l."):
+                probe(modname, fname, "http://x%s/AbC12" % d, False)
+            probe(modname, fname, "http://%s.example.org/AbC12" % d, False)
+            probe(modname, fname, "http://example.org/%s/AbC12?u=http://%s/x" % (d, d), False)
+    for d in sorted(set(more)):
+        probe("should_resolve", "should_resolve", "http://%s/AbC12" % d, True)
+        probe("should_resolve", "should_resolve", "http://%s/" % d, False)
+        if not under_known(d, short) and not d.startswith("l."):
+            probe("is_shortened_url", "is_shortened_url", "http://%s/AbC12" % d, False)
+    for fname, modname in (("is_shortened_url", "is_shortened_url"), ("should_resolve", "should_resolve")):
+        probe(modname, fname, "http://www.example.org/AbC12", False)
+        probe(modname, fname, "http://l.example.org/AbC12", True)
+        probe(modname, fname, "http://l.example.org/", False)
+        probe(modname, fname, "http://l.example.org/a/b", False)
+        probe(modname, fname, "http://el.example.org/AbC12", False)
+        probe(modname, fname, "", False)
+    for d in sorted(set(yt[::7] + yt[:1] + yt[-1:])):
+        probe("youtube", "is_youtube_url", "https://%s/watch?v=x" % d, True)
+        probe("youtube", "is_youtube_url", "https://%s/" % d, True)
+        probe("youtube", "is_youtube_url", "https://%s.example.org/" % d, False)
+        if not under_known("x" + d, yt):
+            probe("youtube", "is_youtube_url", "https://x%s/" % d, False)
+    probe("youtube", "is_youtube_url", "https://example.org/?u=youtube.com", False)
+    return out
+
+
+def _cells_for(ctx):
+    """the predicate table as a cells callable for the shape obligations on the same predicates"""
+    def cells():
+        memo = ctx.__dict__.get("_c18_cells")
+        if memo is None:
+            memo = ctx.__dict__["_c18_cells"] = _shortener_cells(ctx.repo, False)
+        return memo
+    return cells
+
+
+def predicate_table(ctx, rule):
+    ctx.rule(rule, "model table: is_shortened_url / should_resolve / is_youtube_url, interpreted (finite-domain interpreter; the module-level tries are filled by interpreting the modules' own top-level loops) on a stride of their domain lists x url classes {homepage with / without slash, path, no scheme, upper case, sub-domain, glued look-alike, domain as a label of a foreign host, domain in path / query only}, the 'l.' rule classes and every should-resolve domain: the answer depends on host and path only, a homepage is never flagged, should_resolve accepts whatever is_shortened_url accepts")
+    try:
+        cells = _shortener_cells(ctx.repo, ctx.tier == "thorough")
+    except Unknown as e:
+        ctx.undecided(rule, "predicates not interpretable: %s" % e)
+        return
+    site = ctx.repo.mod("is_shortened_url").site(ctx.repo.mod("is_shortened_url").func("is_shortened_url").node)
+    ctx.fn("ural.is_shortened_url.is_shortened_url", "ural.should_resolve.should_resolve", "ural.youtube.is_youtube_url")
+    for i, (desc, ok) in enumerate(cells):
+        ctx.ob(rule, "cell/%s" % desc.split(" -> ")[0], ok, "%s, expected %s" % (desc, "the opposite"), site, witness=desc.split("(", 1)[1].split(")")[0], sample=desc if i % 37 == 0 else None)
+    ctx.require_instances(rule, len(cells), 60, "cells")
 
 
 # ----------------------------------------------------------------------
@@ -148,9 +226,15 @@ def site_languages(ctx, rule, site, sp, lower_only=False):
     # how the predicate applies them
     pmodn, _, predn = sp["predicate"].rpartition(".")
     fn = repo.mod(pmodn).func(predn).node
-    src = unparse(fn)
-    psearch = "re.search(%s" % pname in src or "%s.search(" % pname in src
-    smatch = "re.match(%s" % sname in src or "%s.match(" % sname in src
+    exq = P.Extractor(repo, atomic={"ural.utils.safe_urlsplit"})
+    ops = set()
+    for r in exq.function(repo.mod(pmodn).func(predn)):
+        for x in list(P.subterms(r.term)) + [y for c, _ in r.conds for y in P.subterms(c)]:
+            op = F.regex_op(x)
+            if op is not None:
+                ops.add((op[0], op[1]))
+    psearch = (sp["parsed"], "search") in ops
+    smatch = (sp["string"], "match") in ops
     ctx.ob(rule, "%s/predicate-uses-search-on-hostname-and-match-on-string" % site, psearch and smatch, "%s no longer applies %s with search on the hostname and %s with match on the string" % (predn, pname, sname), m.site(fn))
     try:
         # ---- parsed form
@@ -247,17 +331,17 @@ def tries(ctx, rule):
                     continue
                 if sorted(fed) == sorted(want):
                     ok = True
-        ctx.ob(rule, "%s/fed-with-%s" % (trie, expr.replace(" ", "")), ok, "%s is not filled by `for d in %s: %s.add(d)`" % (trie, expr, trie), mod.site(mod.tree))
+        ctx.ob(rule, "%s/fed-with-%s" % (trie, expr.replace(" ", "")), ok, "%s is not filled by `for d in %s: %s.add(d)`" % (trie, expr, trie), mod.site(mod.tree), cells=_cells_for(ctx))
         rec = mod.last_binding(trie)
         ok2 = rec is not None and rec[0] == "assign" and unparse(rec[1]) == "HostnameTrieSet()"
-        ctx.ob(rule, "%s/is-a-HostnameTrieSet" % trie, ok2, "%s is not a HostnameTrieSet()" % trie, mod.site(mod.tree))
+        ctx.ob(rule, "%s/is-a-HostnameTrieSet" % trie, ok2, "%s is not a HostnameTrieSet()" % trie, mod.site(mod.tree), cells=_cells_for(ctx))
     # final answers
     for modname, fname, trie in (("youtube", "is_youtube_url", "YOUTUBE_DOMAINS_TRIE"), ("is_shortened_url", "is_shortened_url", "SHORTENER_DOMAINS_TRIE"), ("should_resolve", "should_resolve", "SHOULD_RESOLVE_TRIE")):
         mod = repo.mod(modname)
         fn = mod.func(fname).node
         last = fn.body[-1]
         ok = isinstance(last, ast.Return) and isinstance(last.value, ast.Call) and unparse(last.value.func) == trie + ".match" and len(last.value.args) == 1
-        ctx.ob(rule, "%s/answers-trie-match" % fname, ok, "%s does not end with `return %s.match(...)`" % (fname, trie), mod.site(fn))
+        ctx.ob(rule, "%s/answers-trie-match" % fname, ok, "%s does not end with `return %s.match(...)`" % (fname, trie), mod.site(fn), cells=_cells_for(ctx))
     # the 'l.' rule
     sm = repo.mod("is_shortened_url")
     lref = sm.func("is_l_shortened_domain")
